@@ -32,10 +32,11 @@ GROW_SHRINK = [
     "x = '\U0001f600'\n", "x=(1,\n2)\n", "x = [\n 1,\n 2,\n]\n", "def long_name(argument):\n    return argument+argument\n", "raise ValueError()\n",
     "1if 1else 1", "True if 0in x else False", "x=1if 1else'\u00e9\u00e9'", "1if 1else'\u00e9\u00e9\u00e9'", "x='" + '\u00e9' * 40 + "'\n", "print('" + '\u00fc\u00e9' * 30 + "')",
     "x=[1for a in b]", "x=0or 1\n",
-    # deeper than the minifier's recursive visitors can follow under the default recursion limit (the API raises RecursionError), and growing
-    "x=" + "+".join(["a"] * 300) + "\ny=1if 1else 1\n", "if a:\n pass\n" + "elif a:\n pass\n" * 700 + "y=1if 1else 1\n",
     "for i in range(10):\n    print(i)\n", "x=f'{a}'\n", "x=f'{a!r:>10}'", "lambda:0", "0", "pass", "...", "x=1;y=2", "if 1:\n\tpass\nelse:\n\tpass",
 ]
+# deeper than the minifier's recursive visitors can follow under the default recursion limit (the API raises RecursionError), and growing.
+# Rendered plainly only (UTF-8, LF, with and without a shebang): every attempt costs a full recursion-limit unwind
+DEEP_GROWING = ["x=" + "+".join(["a"] * 300) + "\ny=1if 1else 1\n", "if a:\n pass\n" + "elif a:\n pass\n" * 700 + "y=1if 1else 1\n"]
 ENCODINGS = [('utf-8', ''), ('utf-8-sig', ''), ('latin-1', '# -*- coding: latin-1 -*-\n'), ('cp1252', '# coding: cp1252\n'), ('shift_jis', '# coding=shift_jis\n'),
              ('utf-8', '# coding: utf-8\n'), ('latin-1', '\n# coding: latin-1\n')]
 NEWLINES = ['\n', '\r\n', '\r']
@@ -43,6 +44,9 @@ SHEBANGS = ['', '#!/usr/bin/env python\n', '#!/usr/bin/env python   \n', '#!\n']
 
 
 def encoded_sources():
+    for prog in DEEP_GROWING:
+        yield prog.encode('utf-8')
+        yield ('#!/usr/bin/env python\n' + prog).encode('utf-8')
     for prog in GROW_SHRINK:
         for enc, cookie in ENCODINGS:
             for nl in NEWLINES:
